@@ -1,12 +1,13 @@
 #!/bin/bash
 # run every kept seeded change against its own property's quick check (and related ones); one line per pair
-out=/verif/seeded/RESULTS.txt
+V=$(cd "$(dirname "$0")/.." && pwd)
+out=$V/seeded/RESULTS.txt
 : > $out
 declare -A extra=( [C13]="C09 C04 C10" [C09]="C13 C10" [C04]="C13 C14 C03" [C14]="C13 C04" [C10]="C13 C09" [C01]="C02" [C02]="C01" [C03]="C04" [C05]="C12 C11" [C06]="C05 C20" [C16]="C19 C01" [C17]="C11" [C15]="C10" [C08]="C10" [C07]="" [C11]="" [C12]="" [C18]="C16" [C19]="C10" [C20]="")
-for d in /verif/seeded/C*/; do
+for d in $V/seeded/C*/; do
   id=$(basename $d)
   for p in $id ${extra[$id]}; do
-    r=$(/verif/harness/seedtest.sh $d/patch.diff $p 2>&1 | grep -E "VIOLATION|rc=" | tr '\n' ' ' | cut -c1-160)
+    r=$($V/harness/seedtest.sh $d/patch.diff $p 2>&1 | grep -E "VIOLATION|rc=" | tr '\n' ' ' | cut -c1-160)
     echo "$id -> $p : $r" >> $out
   done
 done
